@@ -331,6 +331,45 @@ def _keyed(repo, rep):
     rep.check(ok, "R18.2", ve.qualname, "data attributes are converted only "
               "when the option is enabled", construct="option-guard",
               where=L.where(ve))
+    # a statement written as data attribute is an ordinary statement from
+    # then on: the conversion runs before the statements' values are
+    # entity-decoded and validated, with the namespace map of *this* tag
+    conv = [n for n in ast.walk(ve.node) if isinstance(n, ast.Call)
+            and src(n.func) == "convert_data_attributes"]
+    dec = [n for n in ast.walk(ve.node) if isinstance(n, ast.Assign)
+           and "decode_htmlentities(" in src(n.value)
+           and src(n.targets[0]).startswith("ns[")]
+    val = [n for n in ast.walk(ve.node) if isinstance(n, ast.Call)
+           and src(n.func) == "validate_attributes"]
+    ok = len(conv) == 1 and bool(dec) and bool(val) and \
+        conv[0].lineno < min(d.lineno for d in dec) and \
+        conv[0].lineno < min(v.lineno for v in val)
+    rep.check(ok, "R18.2", ve.qualname, "data-<prefix>-<name> attributes are "
+              "converted first: the decoding of character entities and the "
+              "validation see them like statements written with a prefix",
+              construct="convert-first", where=L.where(ve))
+    arg3 = src(conv[0].args[2]) if conv and len(conv[0].args) > 2 else ""
+    pt = repo.func(PARSER + "parse_tag")
+    stores_map = any(isinstance(n, ast.Assign) and
+                     src(n.targets[0]) == "node['ns_map']" and
+                     src(n.value) == pt.node.args.args[1].arg
+                     for n in ast.walk(pt.node))
+    rep.check(arg3 == "start['ns_map']" and stores_map, "R18.2", ve.qualname,
+              "the prefix of a data attribute is resolved with the namespace "
+              "map in force at its tag (declarations on ancestors and on "
+              "the tag itself), which the parser stores on the tag",
+              construct="data-prefix-map", where=L.where(ve),
+              detail="third argument %s; parse_tag stores ns_map: %s" % (
+                  arg3, stores_map))
+    # an element *of* a language namespace carries its xmlns / xml:
+    # attributes under that namespace: every statement table admits them
+    for modname in ("chameleon.tal", "chameleon.metal", "chameleon.i18n"):
+        wl = repo.const(modname, "WHITELIST")
+        rep.check({"xmlns", "xml"} <= set(wl), "R18.4", modname +
+                  ".WHITELIST", "xmlns / xml: attributes on an element of "
+                  "the %s namespace are not rejected as unknown statements"
+                  % modname.rsplit(".", 1)[-1], construct="whitelist-xmlns:" +
+                  modname.rsplit(".", 1)[-1])
     # unpack_attributes: the prefix lookup is guarded (KeyError handled)
     ua = repo.func(PARSER + "unpack_attributes")
     subs = [n for n in ast.walk(ua.node) if isinstance(n, ast.Subscript)
